@@ -13,12 +13,14 @@ TIE_STABLE_FUNCS = ("_construct_call_stack_graph",)     # the comparator decides
 OPNAME = "aten::linear"
 KN = {"x": "gemm_kernel_x", "y": "elementwise_kernel_y"}
 # structures: list of (parent instance or -1, kernels launched directly beneath it)
-STRUCTS_Q = {"A": [(-1, "x")], "B": [(-1, "xy")], "C": [(-1, "x"), (-1, "x")],
+# an entry (parent, kernels) is an instance of the operator; (parent, kernels, "W") is a *different* operator (a wrapper)
+STRUCTS_Q = {"L": [(-1, "x"), (-1, "", "W"), (1, "xy")], "M": [(-1, "", "W"), (0, "x"), (-1, "xy")],
+             "A": [(-1, "x")], "B": [(-1, "xy")], "C": [(-1, "x"), (-1, "x")],
              "E": [(-1, "x"), (0, "y")], "F": [(-1, ""), (-1, "x")], "G": [(-1, "xy"), (-1, "x")]}
 STRUCTS_T = dict(STRUCTS_Q, D=[(-1, "xy"), (-1, "yx")], H=[(-1, "x"), (0, "y"), (-1, "x")], J=[(-1, "xx"), (-1, "x")],
                  K=[(-1, "x"), (-1, "x"), (-1, "y")])
 BOUNDS = {
-    "quick": "6 nesting structures of 1..2 instances of the operator (top level, nested inside itself, without kernels), "
+    "quick": "8 nesting structures (incl. the operator inside a different wrapper operator and at top level) of 1..2 instances of the operator (top level, nested inside itself, without kernels), "
              "each launching 0..2 kernels of 2 names; all times symbolic Int consistent with the structure (kernel start "
              "order free, equal starts reachable); min_pattern_len in {1,2}, top_k in {1,5}",
     "thorough": "10 structures of up to 3 instances; min_pattern_len in {1,2,3}",
@@ -53,9 +55,12 @@ def skeletons(tier):
 def build(sk):
     ev, inst = [], []
     corr = 50
-    for i, (par, ks) in enumerate(sk["struct"]):
-        ev.append(TG.op(OPNAME, f"$i{i}_ts", f"$i{i}_dur"))
-        I = {"id": len(ev) - 1, "ts": f"$i{i}_ts", "dur": f"$i{i}_dur", "parent": par, "kernels": [], "launches": []}
+    for i, item in enumerate(sk["struct"]):
+        par, ks = item[0], item[1]
+        wrapper = len(item) > 2
+        ev.append(TG.op("aten::wrapper" if wrapper else OPNAME, f"$i{i}_ts", f"$i{i}_dur"))
+        I = {"id": len(ev) - 1, "ts": f"$i{i}_ts", "dur": f"$i{i}_dur", "parent": par, "kernels": [], "launches": [],
+             "match": not wrapper}
         for j, ch in enumerate(ks):
             ev.append(TG.runtime("cudaLaunchKernel", f"$i{i}l{j}_ts", f"$i{i}l{j}_dur", corr=corr))
             L = {"id": len(ev) - 1, "ts": f"$i{i}l{j}_ts", "dur": f"$i{i}l{j}_dur"}
@@ -119,7 +124,12 @@ def run(ctx):
                 out.extend(all_kernels(j))
         return out
 
-    considered = [i for i, I in enumerate(inst) if I["parent"] == -1 and len(all_kernels(i)) >= P["minlen"]]
+    def depth(i):
+        return 0 if inst[i]["parent"] == -1 else 1 + depth(inst[i]["parent"])
+
+    matching = [i for i, I in enumerate(inst) if I["match"]]
+    shallowest = min(depth(i) for i in matching)
+    considered = [i for i in matching if depth(i) == shallowest and len(all_kernels(i)) >= P["minlen"]]
     if not considered:
         ctx.prove(len(res) == 0, "no-considered-instance-empty-result", {"rows": len(res)})
         if ctx.mode == "sym":
